@@ -55,6 +55,7 @@ def curated_shapes():
         shape("split", [S("a", T, first=True, dur=2, next="b", where=0), S("b", T, dur=1, where=1), S("d", "default", where=0)], layout="split"),
         shape("mixin", [S("a", first=True, where=0), S("m", T, dur=2, mf=True, next="a", where=1), S("r", where=2)], layout="mixin"),
         shape("ovr_same", [S("a", T, first=True, dur=2, next="b", over=dict(kind=T, dur=2, next="b")), S("b", T, dur=1)], layout="override"),
+        shape("ovr_dur", [S("a", T, first=True, dur=3, next="b", over=dict(kind=T, dur=1, next="b")), S("b", T, dur=1)], layout="override"),
         shape("ovr_untimed", [S("a", first=True, over=dict(kind=T, dur=1, next="b")), S("b", T, dur=2)], layout="override"),
         shape("ovr_timed", [S("a", T, first=True, dur=1, next="b", over=dict(kind="state")), S("b")], layout="override"),
     ]
@@ -203,10 +204,8 @@ class Model:
         self.dur = {}
         for s in sh["states"]:
             if s["kind"] == "timed":
-                dur = s["dur"]
-                if s.get("over") and s["over"].get("kind") == "timed":
-                    dur = s["over"]["dur"]  # an overriding redefinition keeps the inherited tunable
-                self.dur[s["name"]] = F(dur, 64)
+                # the duration defaults to the decorator argument of the (overriding) definition that is in effect
+                self.dur[s["name"]] = F(s["dur"], 64)
         self.cur = None
         self.fresh = False
         self.running = False
@@ -711,7 +710,9 @@ def compare(sh, op, real, model, now):
 # which properties a disagreement on (observable, why) speaks about
 def props_of(obs, why, auto=False):
     if auto:
-        return {"C13"}
+        # C13 speaks about which state functions run, their clocks and is_executing; the current_state string is C04's
+        # subject (plain machines) and is not part of the AutonomousStateMachine statement
+        return set() if obs in ("current_state", "nt-current_state") else {"C13"}
     if obs == "crash":
         return {"C01", "C02", "C03", "C04"}
     if obs in ("callcount", "state-class"):
@@ -915,11 +916,11 @@ def _recorder(sh, res, want, maxdev_default, seed):
         res.outcome(core.stable_hash(norm_obs(ex.trace)))
         counter[0] += 1
         if counter[0] % rerun_every == rerun_off:
-            ex2 = run_execution(sh, core.Chooser(ch.choices), ex.nops, md, opset=opset, nest=getattr(ex, "nest", True), sibling=getattr(ex, "sibling", False))
+            ex2 = run_execution(sh, core.Chooser(ch.choices), ex.nops, md, opset=opset, nest=getattr(ex, "nest", True), sibling=getattr(ex, "sibling", False), want=want)
             a, b = norm_obs(ex.trace), norm_obs(ex2.trace)
             if a != b:
                 diff = [(x, y) for x, y in zip(a, b) if x != y][:2]
-                raise core.HarnessError(f"non-deterministic replay for shape {sh['name']} choices {ch.choices}: {diff}")
+                raise core.HarnessError(f"non-deterministic replay for shape {sh['name']} choices {ch.choices}: {diff} (trace lengths {len(a)} / {len(b)})")
             res.determinism_reruns += 1
 
     return record
